@@ -72,7 +72,7 @@ func (c *FmtCase) isPrintf() bool {
 
 const asciiVerbs = "vsdqxXtbcoOUeEfFgGpTw"
 
-var oddVerbs = [][]byte{[]byte("é"), []byte("×"), []byte(startS), []byte(endS), {0xE2}, {0xFF}, []byte("!"), []byte("z"), []byte("Z"), []byte("y")}
+var oddVerbs = [][]byte{[]byte("é"), []byte("×"), []byte(startS), []byte(endS), {0xE2}, {0xFF}, []byte("!"), []byte("z"), []byte("Z"), []byte("y"), []byte("\uFFFD")}
 
 type fmtConfig struct {
 	noW           bool // exclude %w
